@@ -95,6 +95,7 @@ type plan struct {
 	ByzActions   int
 	MockVariant  int    // which of the shared beacon mocks (fork schedule variant)
 	Rotation     int    // slot mod n: logical node j runs as peer (j+Rotation) mod n, so that leader election does not depend on the wall-clock slot
+	BNFlaky      []bool // per node: the node's beacon node fails a share of the chain-parameter lookups
 	ByzConsensus []bool // per node: the Byzantine identity also misbehaves at consensus level
 	Slot         uint64
 	Epoch        uint64
@@ -119,6 +120,7 @@ type world struct {
 	pubShare map[core.PubKey]map[int]tbls.PublicKey
 
 	bmock beaconmock.Mock
+	env   *mockEnv
 	ch    *chain
 
 	keys  []*k1.PrivateKey
@@ -270,6 +272,10 @@ func makePlan(rng *rand.Rand) *plan {
 	p.ExpireReplay = rng.Intn(3) == 0
 	p.ByzActions = 6 + rng.Intn(18)
 	for i := 0; i < p.N; i++ {
+		p.BNFlaky = append(p.BNFlaky, roles[i] != roleByzBare && rng.Intn(8) == 0)
+	}
+	for i := 0; i < p.N; i++ {
+		p.BNFlaky = append(p.BNFlaky, roles[i] != roleByzBare && rng.Intn(8) == 0)
 		p.ByzConsensus = append(p.ByzConsensus, (roles[i] == roleByzStack || roles[i] == roleByzBare) && rng.Intn(2) == 0)
 	}
 
@@ -306,7 +312,7 @@ func (p *plan) rotate(o int) {
 	p.Roles = rotS(p.Roles)
 	p.StartDelayMs, p.FetchDelayMs, p.VCDelayMs = rotI(p.StartDelayMs), rotI(p.FetchDelayMs), rotI(p.VCDelayMs)
 	p.HeadChoice, p.SyncChoice, p.ExitEpochOff = rotI(p.HeadChoice), rotI(p.SyncChoice), rotI(p.ExitEpochOff)
-	p.NoPropose, p.SplitFFG, p.ByzConsensus = rotB(p.NoPropose), rotB(p.SplitFFG), rotB(p.ByzConsensus)
+	p.NoPropose, p.SplitFFG, p.ByzConsensus, p.BNFlaky = rotB(p.NoPropose), rotB(p.SplitFFG), rotB(p.ByzConsensus), rotB(p.BNFlaky)
 	crash := map[int]int64{}
 	for j, at := range p.CrashAt {
 		crash[(j+o)%n] = at
@@ -323,6 +329,8 @@ const mockVariants = 3
 
 type mockEnv struct {
 	bmock   beaconmock.Mock
+	spec    map[string]any
+	genesis *eth2v1.Genesis
 	ch      *chain
 	electra bool
 	variant int
@@ -410,6 +418,18 @@ func buildEnvs(r *kit.Run) error {
 					continue
 				}
 				e = &mockEnv{bmock: bm, ch: ch, electra: electra, variant: variant}
+				var sp *eth2api.Response[map[string]any]
+				var gen *eth2api.Response[*eth2v1.Genesis]
+				if sp, err = bm.Spec(context.Background(), &eth2api.SpecOpts{}); err == nil {
+					gen, err = bm.Genesis(context.Background(), &eth2api.GenesisOpts{})
+				}
+				if err != nil {
+					_ = bm.Close()
+					e = nil
+					time.Sleep(300 * time.Millisecond)
+					continue
+				}
+				e.spec, e.genesis = sp.Data, gen.Data
 
 				break
 			}
@@ -598,6 +618,7 @@ func newWorld(r *kit.Run, c *kit.Case, rng *rand.Rand) (*world, error) {
 		active[v.Idx] = v.Eth2
 		complete[v.Idx] = val
 	}
+	w.env = env
 	w.bmock = env.bmock
 	w.bmock.CachedValidatorsFunc = func(context.Context) (eth2wrap.ActiveValidators, eth2wrap.CompleteValidators, error) {
 		return active, complete, nil
